@@ -49,6 +49,12 @@ TOKEN_FIELD_TYPES = FIELD_TYPES + [
     FT('RawPtr', sx.tptr(T), '*const T', '', '', needs=('T',)),
     FT('SliceRef', sx.tref(sx.tslice(T), lt='a'), "&'a [T]", '', '', needs=("'a", 'T')),
     FT('Never', sx.tgen('Option', sx.tnever()), 'Option<!>', '', ''),
+    # bare trait objects (a possibly-unsized tail): with one bound, with several (`&dyn A + B` would be ambiguous), generic
+    FT('DynTwo', sx.tdyn([sx.tb_trait(['core', 'fmt', 'Debug'], lead=True), sx.tb_trait(['Sync'])]),
+       'dyn ::core::fmt::Debug + Sync', '', ''),
+    FT('DynOne', sx.tdyn([sx.tb_trait(['core', 'fmt', 'Debug'], lead=True)]), 'dyn ::core::fmt::Debug', '', ''),
+    FT('DynT', sx.tdyn([sx.tb_trait([sx.seg('AsRef', ('angle', [sx.gty(T)]))]), sx.tb_trait(['Send'])]),
+       'dyn AsRef<T> + Send', '', '', needs=('T',)),
     FT('SelfBox', sx.tgen('Option', sx.tgen('Box', sx.tid('Self'))), 'Option<Box<Self>>', '', ''),
 ]
 
